@@ -66,13 +66,8 @@ def remove (c : Cache K V) (i : Nat) : Option (Cache K V) := do
     | none => pure (heap, n.prev) : Option (Heap K V × Option Nat))    -- c.tail = node.prev
   pure { c with heap := heap, idx := idx, head := head, tail := tail }
 
-/-- `insert(key, value)` -/
-def insert (c : Cache K V) (k : K) (v : V) : Option (Cache K V) := do
-  let c ← (if c.idx.length = c.cap then
-      match c.head with
-      | some h => remove c h                       -- c.remove(c.head)
-      | none => none                               -- nil dereference
-    else pure c : Option (Cache K V))
+/-- second half of `insert(key, value)`: allocate the node and link it behind the tail -/
+def insertTail (c : Cache K V) (k : K) (v : V) : Option (Cache K V) :=
   let i := c.fresh
   let heap := upd c.heap i { prev := c.tail, next := none, key := k, val := v }
   let idx := (k, i) :: c.idx                       -- c.nodeByKey[key] = node
@@ -82,6 +77,15 @@ def insert (c : Cache K V) (k : K) (v : V) : Option (Cache K V) := do
       pure { c with heap := upd heap t { tn with next := some i }, idx := idx, tail := some i, fresh := i + 1 }
   | none =>
       pure { c with heap := heap, idx := idx, head := some i, tail := some i, fresh := i + 1 }
+
+/-- `insert(key, value)` -/
+def insert (c : Cache K V) (k : K) (v : V) : Option (Cache K V) := do
+  let c ← (if c.idx.length = c.cap then
+      match c.head with
+      | some h => remove c h                       -- c.remove(c.head)
+      | none => none                               -- nil dereference
+    else pure c : Option (Cache K V))
+  insertTail c k v
 
 /-- `moveToTail(node)` -/
 def moveToTail (c : Cache K V) (i : Nat) : Option (Cache K V) := do
